@@ -910,6 +910,9 @@ func (in *Interp) prepareCall(fr *frame, call *ssa.CallCommon) (Value, []Value) 
 		if recv.t == nil {
 			in.goPanic("runtime error: invalid memory address or nil pointer dereference (method call on nil interface)")
 		}
+		if no, ok := recv.v.(*nativeObj); ok {
+			return no.method(in, call.Method.Name()), in.getArgs(fr, call.Args, nil)
+		}
 		f := in.lookupMethod(recv.t, call.Method)
 		if f == nil {
 			panic(fmt.Sprintf("method set of %v lacks %s", recv.t, call.Method))
